@@ -47,7 +47,7 @@ pub enum V {
     StructVar(&'static str, Vec<(&'static str, V)>),
 }
 
-const NAMES: [&str; 8] = ["Uv", "Kv", "Nv", "Tv", "Sv", "f", "g2", "h"];
+const NAMES: [&str; 10] = ["Uv", "Kv", "Nv", "Tv", "Sv", "f", "g2", "h", "q\"t", "b\\s\tn\nl"];
 fn stat(n: &str) -> &'static str {
     NAMES.iter().find(|x| **x == n).copied().unwrap_or("other")
 }
@@ -470,13 +470,19 @@ pub fn random_tree(r: &mut Rng, depth: usize) -> Value {
             5 => json!({"t":"char","s":[*r.pick(&toks)]}),
             6 => json!({"t":"num","a":format!("{}", (r.next() as i64) >> r.below(60)),"int":true}),
             7 => json!({"t":"unitvar","name":"Kv"}),
-            8 => json!({"t":"newtype","v":{"t":"str","s":s(r)}}),
+            8 => match r.below(6) {
+                0 | 1 => json!({"t":"newtype","v":{"t":"str","s":s(r)}}),
+                2 => json!({"t":"newtype","v":{"t":"num","a":format!("{}", (r.next() as i64) >> r.below(60)),"int":true}}),
+                3 => json!({"t":"newtype","v":{"t":"newtype","v":{"t":"num","a":format!("{}", r.next() >> r.below(60)),"int":true}}}),
+                4 => json!({"t":"newtype","v":{"t":"bool","b":r.chance(1,2)}}),
+                _ => json!({"t":"newtype","v":{"t":"seq","items":[]}}),
+            },
             9 => json!({"t":"bool","b":true}),
             10 => json!({"t":"seq","items":[]}),
             _ => json!({"t":"some","v":{"t":"str","s":s(r)}}),
         }
     };
-    let fields = |r: &mut Rng| -> Vec<Value> { kids(r).into_iter().enumerate().map(|(i, v)| { let nm = ["f", "g2", "h"][i % 3]; json!([nm, v]) }).collect() };
+    let fields = |r: &mut Rng| -> Vec<Value> { kids(r).into_iter().enumerate().map(|(i, v)| { let nm = ["f", "g2", "h", "q\"t", "b\\s\tn\nl"][(i + n) % 5]; json!([nm, v]) }).collect() };
     match r.below(9) {
         0 => json!({"t":"seq","items":kids(r)}),
         1 => {
